@@ -38,3 +38,15 @@ package log
 //@   loop 1 invariant[C09:ext] Ext(old(buf.out), buf.out, RP(s, i))
 //@   loop 1 decreases[C09] len(s) - i
 //@   replay s = s
+
+// ---- C08: file:line truncation -----------------------------------------------------------------
+
+//@ func (*BaseLayout).GetFileLine
+//@   requires c != nil && e != nil
+//@   let fl = e.File + ":" + itoa(e.Line)
+//@   let W = c.FileLineLength
+//@   modifies nothing
+//@   nopanic[C08]
+//@   ensures[C08:full] len(fl) <= W ==> result == fl
+//@   ensures[C08:truncated] len(fl) > W ==> result == "..." + fl[len(fl) - max(W - 3, 0):]
+//@   replay W = c.FileLineLength; file = e.File; line = e.Line
